@@ -63,7 +63,7 @@ Definition aii_p2 (x : Z) : Z :=
 Definition asm_idct_islow (coef q : list Z) : list Z :=
   let cols := transpose (chunk8 8 (map w16 coef)) in let qc := transpose (chunk8 8 (map w16 q)) in
   (* .columnDCT is skipped when rows 1..7 of the whole block are zero: in0 * q0 << PASS1_BITS in 16-bit lanes *)
-  let dc_only := all_zero (skipn 8 coef) in
+  let dc_only := forallb (fun c => all_zero (tl c)) (transpose (chunk8 8 coef)) in    (* rows 1..7 zero = every column has zero ACs *)
   let ws := transpose (map2 (fun c m => if dc_only then repeat (psllw (pmullw (hd 0 c) (hd 0 m)) jidctint_sse2_PASS1_BITS) 8
                                         else map aii_p1 (asm_idctint1_wide (map2 pmullw c m))) cols qc) in
   concat (map (fun r => map aii_p2 (asm_idctint1_wide r)) ws).
